@@ -17,7 +17,7 @@ import (
 )
 
 var recvVerdicts = []string{"continue", "stop", "term", "hijack", "hijackc", "direct", "rematch", "rechoose"}
-var sendVerdicts = []string{"continue", "stop", "term"}
+var sendVerdicts = []string{"continue", "stop", "term", "hijack", "direct"}
 
 func isDeny(v string) bool { return v == "term" || v == "hijack" || v == "hijackc" || v == "direct" }
 
@@ -56,6 +56,9 @@ func c14Finder(run *Run, j *histJob) {
 	}
 	if newAfterTerminate(r) {
 		run.Fail("C14:terminated-forwarded", "TerminateStream returned true, yet the request was sent upstream afterwards", replay)
+	}
+	if ri := replyOf(r); ri.Mixed != "" && (ri.FirstKind == "hijack" || ri.FirstKind == "direct") {
+		run.Fail("C14:local-reply-followed-by-upstream-body", "the client was sent "+ri.Mixed, replay)
 	}
 	denied, term := false, false
 	deniedAt := -1
@@ -136,7 +139,7 @@ func genC14(run *Run) []*Spec {
 			specs = append(specs, sp)
 			for _, sv := range sendVerdicts {
 				sp := base()
-				sp.Filters = []FilterSpec{{Phase: p, Code: 403, Verdicts: []string{v}}, {Send: true, Verdicts: []string{sv}}}
+				sp.Filters = []FilterSpec{{Phase: p, Code: 403, Verdicts: []string{v}}, {Send: true, Code: 470, Verdicts: []string{sv}}}
 				specs = append(specs, sp)
 			}
 		}
@@ -158,6 +161,25 @@ func genC14(run *Run) []*Spec {
 			}
 		}
 	}
+	// answers from the send phase over every response shape, also after a retried 5xx that had a body
+	for _, sv := range []string{"hijack", "direct"} {
+		for _, shape := range [][2]bool{{false, false}, {true, false}, {true, true}} {
+			sp := base()
+			sp.Events = []Event{{AtMs: slot, Kind: "upresp", K: 0, Status: 200, Data: shape[0], Trailers: shape[1]}}
+			sp.Filters = []FilterSpec{{Phase: 0}, {Send: true, Code: 470, Verdicts: []string{sv}}}
+			specs = append(specs, sp)
+			sp2 := base()
+			sp2.RetryOn = true
+			sp2.Pool = []string{"ok", []string{"connfail", "overflow"}[r.Intn(2)], "connfail", "connfail", "connfail"}
+			sp2.Events = []Event{{AtMs: slot, Kind: "upresp", K: 0, Status: 503, Data: shape[0], Trailers: shape[1]}}
+			sp2.Filters = []FilterSpec{{Phase: 0}, {Send: true, Code: 470, Verdicts: []string{"continue", sv}}}
+			specs = append(specs, sp2)
+		}
+	}
+	// a filter's direct response with a body, then TerminateStream (a body-less hijack) before it is sent: slow send filter
+	specs = append(specs, &Spec{Route: "forward", NHosts: 2, RouteGlobalMs: 3 * slot,
+		Filters: []FilterSpec{{Phase: 1, Code: 299, Verdicts: []string{"direct"}}, {Send: true, DelayMs: 30}},
+		Events:  []Event{{AtMs: 10, Kind: "terminate", Code: 403}}})
 	// random longer chains, verdicts by invocation number, occasionally an asynchronous event
 	n := run.N(250, 5000)
 	for i := 0; i < n; i++ {
@@ -165,7 +187,7 @@ func genC14(run *Run) []*Spec {
 		nf := 1 + r.Intn(5)
 		for k := 0; k < nf; k++ {
 			if r.Intn(5) == 0 {
-				sp.Filters = append(sp.Filters, FilterSpec{Send: true, Verdicts: []string{sendVerdicts[r.Intn(3)]}})
+				sp.Filters = append(sp.Filters, FilterSpec{Send: true, Code: 470 + r.Intn(9), Verdicts: []string{sendVerdicts[r.Intn(len(sendVerdicts))]}})
 				continue
 			}
 			f := FilterSpec{Phase: r.Intn(3), Code: 400 + r.Intn(30)}
